@@ -197,7 +197,7 @@ DIRECTED = [
      'dict_in': {'d': [2]}},
     # foreach over container items, the body mutates the current item
     {'name': 'foreach', 'script': ['foreach', 'foreach', 'py_append'], 'dict_in': {'acc': [0]}},
-    {'name': 'retry', 'script': ['retry', 'retry'], 'dict_in': {'acc': [0], 'b': [[1]]}},
+    {'name': 'retry-while', 'script': ['retry', 'while', 'retry'], 'dict_in': {'acc': [0], 'b': [[1]]}},
     {'name': 'pype-parent', 'script': ['pype_parent', 'py_append', 'pype_parent'], 'dict_in': {'acc': [0]}},
     {'name': 'pype-child', 'script': ['pype_child', 'py_append', 'pype_child'], 'dict_in': {'acc': [0]}},
     {'name': 'merge-default', 'script': ['merge', 'default', 'merge', 'default', 'contextcopy', 'merge'],
@@ -248,7 +248,7 @@ def history_cases(env):
 def thread_cases(env):
     rng = env.rng
     sets = []
-    for d in (DIRECTED[0], DIRECTED[1], DIRECTED[5], DIRECTED[8]):
+    for d in (DIRECTED[0], DIRECTED[1], DIRECTED[2], DIRECTED[3], DIRECTED[5], DIRECTED[8]):
         gen, entries = make_entries(rng, 1, directed=d)
         sets.append((gen, entries, [0, 0], 'directed:' + d['name']))
     for _ in range(env.n(6, 150)):
@@ -514,7 +514,7 @@ def _worker(args):
 
 
 def run(env, res):
-    res.rule = ('(a) generated pipelines of real steps (12 directed shapes, then random: 2-6 steps from 21 step kinds, '
+    res.rule = ('(a) generated pipelines of real steps (12 directed shapes, then random: 2-6 steps from 22 step kinds, '
                 'random config.vars / shortcut with args and/or parser_args / list parser / dict_in), run once or twice, '
                 'every step observation compared with the Lean heap model: context deep value + shared objects reachable '
                 'by id(); (b) histories of 2-6 runs over 1-3 such pipelines, deep snapshots of every cached definition and '
